@@ -2,6 +2,7 @@
 // equation judged on the implementation by the clauses of the property.
 #include "common.hpp"
 #include "frag.hpp"
+#include "verif_seed.hpp"
 #include "ccl/semantic/RSForm.h"
 #include "ccl/ops/RSOperations.h"
 #include "ccl/ops/EquationOptions.h"
@@ -142,7 +143,11 @@ static void judgeSynthesis(const RSForm& a, const RSForm& b, const ops::Equation
   ops::BinarySynthes synth{ a, b, eq };
   const bool defined = synth.IsCorrectlyDefined();
   auto res = synth.Execute();
-  emit("c12 synth", std::string(defined ? "defined" : "refused") + (res ? " result" : " none"));
+  {
+    std::string eqs;
+    for (const auto& [k, v] : eq) eqs += (a.Contains(k) ? a.GetRS(k).alias : std::to_string(k)) + "=" + (b.Contains(v) ? b.GetRS(v).alias : std::to_string(v)) + "/" + std::to_string(static_cast<int>(eq.PropsFor(k).mode)) + ",";
+    emit("c12 synth " + nosp("A[" + before1 + "]B[" + before2 + "]EQ[" + eqs + "]"), std::string(defined ? "defined" : "refused") + (res ? " result" : " none"));
+  }
   chk("operands-untouched", (before1 == dumpForm(a) && before2 == dumpForm(b)) ? "" : "operand modified");
   if (!defined) { chk("refused-gives-nothing", res == nullptr ? "" : "result although refused"); return; }
   if (res == nullptr) { chk("defined-gives-result", "no result"); return; }
@@ -293,6 +298,12 @@ int main() {
   const bool deep = vh::thorough();
   algebra(rng, deep ? 20000 : 2000);
   const int N = deep ? 2500 : 250;
-  for (int i = 0; i < N; ++i) { vh::Rng sub(rng.next()); vh::forkedEmit([&] { synthesisCase(sub); }, "c12 crash"); }
+  const char* only = std::getenv("VERIF_CASE");   // debugging aid: run one case in-process
+  for (int i = 0; i < N; ++i) {
+    const auto cs = rng.next();
+    vh::Rng sub(cs);
+    if (only != nullptr) { if (std::atoi(only) == i) { ccl::verif::Seed(static_cast<uint32_t>(cs)); synthesisCase(sub); } continue; }
+    vh::forkedEmit([&] { ccl::verif::Seed(static_cast<uint32_t>(cs)); synthesisCase(sub); }, "c12 crash", 60);
+  }
   return 0;
 }
